@@ -43,6 +43,8 @@ func checkC02(c *Ctx) {
 	}
 	c02model(c, a)
 	a.r5exits()
+	premiseBounds(c, "C02.R6", "a ring is skipped when its box, built with these operations, does not overlap the point's")
+	c.Floor("C02.R6", 16)
 	c.Floor("C02.R1", 1)
 	c.Floor("C02.R2", 1)
 	c.Floor("C02.R3", 1)
